@@ -800,7 +800,7 @@ func checkC16(c *Ctx) {
 
 	// ---- C16.11 / C16.12 an established session stays a byte stream: the set-up deadline is cleared on the connection it
 	// was armed on (shared with C05.12), and Read delivers what was queued before it reports the close (C05.13)
-	r.Rule("C16.11", "handshake deadlines are cleared on the connection they were set on", 2)
+	r.Rule("C16.11", "handshake deadlines are cleared on the connection they were set on", 1)
 	checkHandshakeDeadlines(c, "C16.11")
 	r.Rule("C16.12", "hbConn.Read drains its queue before it reports the close", 1)
 	checkDrainBeforeClosed(c, "C16.12")
